@@ -336,6 +336,16 @@ func (n *WorkflowNode) addDependencyRelation(fromNodeKey string, inputs []*Field
 }
 
 func (n *WorkflowNode) checkAndAddMappedPath(paths []FieldPath) error {
+	for _, p := range paths {
+		if len(p) == 0 {
+			// an empty target path maps the entire input: it overlaps with every other target path
+			if len(paths) > 1 {
+				return fmt.Errorf("the entire input of node %s is mapped together with some of its fields", n.key)
+			}
+			return n.checkAndAddMappedPath(nil)
+		}
+	}
+
 	if v, ok := n.mappedFieldPath[""]; ok {
 		if _, ok = v.(struct{}); ok {
 			return fmt.Errorf("entire output has already been mapped for node: %s", n.key)
